@@ -789,6 +789,12 @@ func validateV2Siafunds(ms *MidState, txn types.V2Transaction) error {
 		if sfi.Parent.ClaimStart.Cmp(ms.siafundTaxRevenue) > 0 {
 			return fmt.Errorf("siafund input %v has claim start (%v) exceeding siafund tax revenue (%v)", i, sfi.Parent.ClaimStart, ms.siafundTaxRevenue)
 		}
+		// likewise, its value must not exceed the number of siafunds in
+		// existence, or the input sum could wrap around and computing the
+		// claim would overflow
+		if sfi.Parent.SiafundOutput.Value > ms.base.SiafundCount() {
+			return fmt.Errorf("siafund input %v has value (%d SF) exceeding the siafund count", i, sfi.Parent.SiafundOutput.Value)
+		}
 	}
 
 	var inputSum, outputSum uint64
